@@ -46,6 +46,11 @@ def main():
             {"name": "pyvc", "path": "vf/pyvc", "serves_properties": sorted(p for p in C if "pyvc" in C[p].get("engine", "pyvc")),
              "kind_free_text": "weakest-precondition / path-wise symbolic VC generator over the real Python source (ast re-read every run), "
                                "sidecar contracts, loops cut by invariants, calls by contract, obligations discharged by z3 (API 5.1.0)"},
+            {"name": "llk", "path": "vf/llk", "serves_properties": sorted(p for p in C if "llk" in C[p].get("engine", "")),
+             "kind_free_text": "predictive-parser extraction: control-flow automata of Parser.parse_* over abstract tokens from the real source; per method "
+                               "and flag valuation: regular-language equality with the specification grammar's right-hand side (P1), FIRST_2/FOLLOW_2 "
+                               "prediction over decision trees (P2), progress (P3), raise sites (P4), node shape and spans (P5); counterexample words "
+                               "made concrete and replayed against an Earley oracle"},
             {"name": "tracecheck", "path": "vf/tracecheck.py", "serves_properties": sorted(p for p in C if "tracecheck" in C[p].get("engine", "")),
              "kind_free_text": "trace contracts (ghost event words) checked on every syntactic path of the real function, values abstracted, exceptions "
                                "dispatched by the real class hierarchy, local closures inlined, callback-taking callees by effect contract"},
